@@ -27,8 +27,11 @@ Record oev := {
   o_started : bool             (* ForkingWorkerState ran: the fork was started *)
 }.
 
+(* [emulti]: ErrWorker is a Multi state in the real (regenerated) schema *)
+Definition fx_of (emulti : bool) : fixes := {| fx_insert_gate := false; fx_err_multi := emulti |}.
+
 Inductive c15case :=
-| C15Pool (c : cfg) (pr : nat) (groups : list (N * list nat)) (evs : list oev)
+| C15Pool (c : cfg) (emulti : bool) (pr ew : nat) (groups : list (N * list nat)) (evs : list oev)
           (wgroups : list (N * list nat)) (wsets : list (list nat))
 | C15Sets (sc : schema) (groups : list (N * list nat)) (sets : list (list nat)).
 
@@ -42,16 +45,28 @@ Definition group_codes (groups : list (N * list nat)) (active : list nat) : list
   flat_map (fun cg : N * list nat =>
     if exclusive_ok (snd cg) active then [] else [(2, fst cg)]) groups.
 
-(* the model's state after the event, given what the implementation decided *)
-Definition model_next (c : cfg) (s : st) (o : oev) : st :=
-  if o_acc o then effect c s (o_ev o) else s.
+(* ErrWorker's activity is taken from the observation (it is also dropped by
+   paths the event model does not have: handler-timeout recovery) *)
+Definition synced (ew : nat) (s : st) (o : oev) : st := set_errworker s (mem ew (o_before o)).
 
-Definition mismatch (c : cfg) (pr : nat) (s : st) (o : oev) : list (N * N) :=
-  let s' := model_next c s o in
+(* the kill requests are taken from the observation as well, so that the
+   error clause is judged on what the implementation requested *)
+Definition mark_kill (s : st) (k : nat) : st :=
+  on_worker s k (fun i => {| w_conn := w_conn i; w_ready := w_ready i; w_errs := w_errs i;
+                             w_recent := w_recent i; w_killreq := true;
+                             w_delivered := w_delivered i |}).
+
+(* the model's state after the event, given what the implementation decided *)
+Definition model_next (c : cfg) (em : bool) (ew : nat) (s : st) (o : oev) : st :=
+  fold_left mark_kill (o_kills o)
+    (if o_acc o then effect (fx_of em) c (synced ew s o) (o_ev o) else synced ew s o).
+
+Definition mismatch (c : cfg) (em : bool) (pr ew : nat) (s : st) (o : oev) : list (N * N) :=
+  let s' := model_next c em ew s o in
   (if tracked s' =? o_tracked o then [] else [(1, 1)])
   ++ (match o_fgate o with
       | Some (t, _) =>
-        (if is_fork_ev (o_ev o) && negb (Bool.eqb (gate no_fixes c s (o_ev o)) (o_acc o))
+        (if is_fork_ev (o_ev o) && negb (Bool.eqb (gate (fx_of em) c s (o_ev o)) (o_acc o))
          then [(1, 2)] else [])
         ++ (if t =? tracked s then [] else [(1, 9)])
       | None => []
@@ -74,11 +89,13 @@ Definition mismatch (c : cfg) (pr : nat) (s : st) (o : oev) : list (N * N) :=
       | _ => []
       end).
 
-(* does the model request a kill for this event? *)
-Definition expect_kill (c : cfg) (s : st) (o : oev) : option (nat * bool) :=
+(* does the model request a kill for this event? (key, expected) *)
+Definition lost (em : bool) (ew : nat) (o : oev) : bool := negb em && mem ew (o_before o).
+
+Definition expect_kill (c : cfg) (em : bool) (ew : nat) (s : st) (o : oev) : option (nat * bool) :=
   match o_ev o with
   | EErr k counted =>
-    Some (k, o_acc o && counted &&
+    Some (k, o_acc o && counted && negb (lost em ew o) &&
              match wfind k (s_workers s) with
              | Some i => over_limit c (w_errs i + 1)
              | None => false
@@ -86,7 +103,20 @@ Definition expect_kill (c : cfg) (s : st) (o : oev) : option (nat * bool) :=
   | _ => None
   end.
 
-Definition violations (c : cfg) (pr : nat) (groups : list (N * list nat)) (s : st) (prev : N)
+(* the worker the error was raised for accumulated more than the limit and no
+   kill has been requested for it: was this error counted at all? *)
+Definition kill_codes (c : cfg) (em : bool) (ew : nat) (s' : st) (o : oev) : list (N * N) :=
+  match o_ev o with
+  | EErr k true =>
+    match wfind k (s_workers s') with
+    | Some i' => if kill_ok c i' then []
+                 else [(2, if lost em ew o then 159 else 155)]
+    | None => []
+    end
+  | _ => []
+  end.
+
+Definition violations (c : cfg) (em : bool) (pr ew : nat) (groups : list (N * list nat)) (s : st) (prev : N)
            (o : oev) : list (N * N) :=
   let was := mem pr (o_before o) in
   let now := mem pr (o_after o) in
@@ -119,20 +149,20 @@ Definition violations (c : cfg) (pr : nat) (groups : list (N * list nat)) (s : s
         end
       else [])
   (* error limit *)
-  ++ (match expect_kill c s o with
-      | Some (k, true) => if mem k (o_kills o) then [] else [(2, 155)]
-      | Some (k, false) => if mem k (o_kills o) then [(1, 7)] else []
+  ++ (match expect_kill c em ew s o with
+      | Some (k, b) => if Bool.eqb b (mem k (o_kills o)) then [] else [(1, 7)]
       | None => []
       end)
+  ++ kill_codes c em ew (model_next c em ew s o) o
   ++ group_codes groups (o_after o).
 
-Fixpoint pool_codes (c : cfg) (pr : nat) (groups : list (N * list nat)) (s : st) (prev : N)
+Fixpoint pool_codes (c : cfg) (em : bool) (pr ew : nat) (groups : list (N * list nat)) (s : st) (prev : N)
          (evs : list oev) : list (N * N) :=
   match evs with
   | [] => []
   | o :: r =>
-    mismatch c pr s o ++ violations c pr groups s prev o
-    ++ pool_codes c pr groups (model_next c s o) (o_tracked o) r
+    mismatch c em pr ew s o ++ violations c em pr ew groups s prev o
+    ++ pool_codes c em pr ew groups (model_next c em ew s o) (o_tracked o) r
   end.
 
 Definition pair_eqb (a b : N * N) : bool := (fst a =? fst b) && (snd a =? snd b).
@@ -154,8 +184,8 @@ Definition sets_codes (sc : schema) (groups : list (N * list nat)) (sets : list 
 
 Definition case_codes (k : c15case) : list (N * N) :=
   match k with
-  | C15Pool c pr groups evs wgroups wsets =>
-    pool_codes c pr groups init_st 0 evs ++ flat_map (group_codes wgroups) wsets
+  | C15Pool c em pr ew groups evs wgroups wsets =>
+    pool_codes c em pr ew groups init_st 0 evs ++ flat_map (group_codes wgroups) wsets
   | C15Sets sc groups sets => sets_codes sc groups sets
   end.
 
